@@ -20,7 +20,7 @@ ProdFrom(ns, i, acc) == IF i > Len(ns) THEN [ok |-> TRUE, n |-> acc]
                         ELSE IF ~InRange(acc * ns[i].n) THEN [ok |-> FALSE]
                         ELSE ProdFrom(ns, i + 1, acc * ns[i].n)
 
-NumResult(n) == IF InRange(n) THEN POut(<<VNum(n)>>) ELSE PErr(COOM)
+NumResult(n) == IF InRange(n) THEN POut(<<VNum(n)>>) ELSE PErr(OOM("number leaves the model range"))
 
 Chain(ns, Rel(_, _)) == \A i \in 1..(Len(ns) - 1) : Rel(ns[i].n, ns[i + 1].n)
 Lt(a, b) == a < b
@@ -32,13 +32,25 @@ EqN(a, b) == a = b
 \* Numeric commands ("Strings and numbers": typed numbers or number-like strings)
 Numeric(name, args) ==
   LET ns == NumArgs(args) IN
-  IF AnyUnk(ns) THEN PErr(COOM)
+  IF AnyUnk(ns) THEN PErr(OOM("string used as a number is not a canonical decimal"))
   ELSE IF AnyNotNum(ns) THEN PErr(CType)
   ELSE CASE name = "+" -> NumResult(SumFrom(ns, 1))
          [] name = "-" -> IF Len(ns) = 0 THEN PErr(CArity)
                           ELSE IF Len(ns) = 1 THEN NumResult(-ns[1].n)
                           ELSE NumResult(ns[1].n - SumFrom(ns, 2))
-         [] name = "*" -> LET p == ProdFrom(ns, 1, 1) IN IF p.ok THEN NumResult(p.n) ELSE PErr(COOM)
+         [] name = "*" -> LET p == ProdFrom(ns, 1, 1) IN IF p.ok THEN NumResult(p.n) ELSE PErr(OOM("number leaves the model range"))
+         [] name = "/"  -> \* left to right; exact results only (rationals are outside the model)
+                           IF Len(ns) = 0 THEN PErr(OOM("/ without arguments"))
+                           ELSE IF Len(ns) = 1 THEN
+                                  (IF ns[1].n = 0 THEN PErr(CBadValue)
+                                   ELSE IF ns[1].n \in {1, -1} THEN NumResult(ns[1].n) ELSE PErr(OOM("rational number")))
+                           ELSE IF \E i \in 2..Len(ns) : ns[i].n = 0 THEN PErr(CBadValue)   \* "Dividing by exact 0 raises an exception"
+                           ELSE LET d == ProdFrom(ns, 2, 1) IN
+                                IF ~d.ok THEN PErr(OOM("number leaves the model range"))
+                                ELSE LET q == IF d.n < 0 THEN -d.n ELSE d.n
+                                         a == IF ns[1].n < 0 THEN -ns[1].n ELSE ns[1].n
+                                     IN IF a % q # 0 THEN PErr(OOM("rational number"))
+                                        ELSE NumResult(IF (ns[1].n < 0) = (d.n < 0) THEN a \div q ELSE -(a \div q))
          [] name = "<"  -> POut(<<VBool(Chain(ns, Lt))>>)
          [] name = "<=" -> POut(<<VBool(Chain(ns, Le))>>)
          [] name = ">"  -> POut(<<VBool(Chain(ns, Gt))>>)
@@ -52,7 +64,7 @@ Numeric(name, args) ==
                                     r == IF a >= 0 THEN a % m ELSE -((-a) % m)   \* sign of $x
                                 IN NumResult(r)
 
-NumericNames == {"+", "-", "*", "<", "<=", ">", ">=", "==", "!=", "%"}
+NumericNames == {"+", "-", "*", "/", "<", "<=", ">", ">=", "==", "!=", "%"}
 
 AllEq(args) == \A i \in 1..(Len(args) - 1) : ValEq(args[i], args[i + 1])
 AnyEqUndecided(args) == \E i \in 1..(Len(args) - 1) : EqUndecided(args[i], args[i + 1])
@@ -66,7 +78,7 @@ CountOf(v) == CASE v.k = "list" -> Good(Len(v.es))
 Exactly(n, args, r) == IF Len(args) # n THEN PErr(CArity) ELSE r
 
 PureNames == NumericNames \cup {"put", "nop", "eq", "not-eq", "not", "bool", "kind-of", "num",
-                                "to-string", "has-key", "assoc", "dissoc", "conj", "constantly-unused"}
+                                "to-string", "has-key", "has-value", "assoc", "dissoc", "conj"}
 
 KindBytes(v) == CASE v.k = "nil" -> <<110,105,108>> [] v.k = "bool" -> <<98,111,111,108>>
                   [] v.k = "str" -> <<115,116,114,105,110,103>> [] v.k = "num" -> <<110,117,109,98,101,114>>
@@ -77,7 +89,7 @@ Pure(name, args) ==
   CASE name \in NumericNames -> Numeric(name, args)
     [] name = "put" -> POut(args)
     [] name = "nop" -> POut(<<>>)
-    [] name = "eq"  -> IF AnyEqUndecided(args) THEN PErr(COOM) ELSE POut(<<VBool(AllEq(args))>>)
+    [] name = "eq"  -> IF AnyEqUndecided(args) THEN PErr(OOM("identity of exception values")) ELSE POut(<<VBool(AllEq(args))>>)
     [] name = "not-eq" -> Exactly(2, args, IF AnyEqUndecided(args) THEN PErr(COOM)
                                            ELSE POut(<<VBool(~ValEq(args[1], args[2]))>>))
     [] name = "not"  -> Exactly(1, args, POut(<<VBool(~Truthy(args[1]))>>))
@@ -102,6 +114,12 @@ Pure(name, args) ==
                                          IF rg.r = "unspec" THEN PErr(COOM)
                                          ELSE POut(<<VBool(rg.r # "err")>>)
            [] OTHER -> PErr(COOM))
+    [] name = "has-value" -> Exactly(2, args,
+         CASE args[1].k = "list" -> IF \E i \in 1..Len(args[1].es) : EqUndecided(args[1].es[i], args[2]) THEN PErr(COOM)
+                                    ELSE POut(<<VBool(\E i \in 1..Len(args[1].es) : ValEq(args[1].es[i], args[2]))>>)
+           [] args[1].k = "map"  -> IF \E i \in 1..Len(args[1].ps) : EqUndecided(args[1].ps[i][2], args[2]) THEN PErr(COOM)
+                                    ELSE POut(<<VBool(\E i \in 1..Len(args[1].ps) : ValEq(args[1].ps[i][2], args[2]))>>)
+           [] OTHER -> PErr(OOM("has-value on this container")))
     [] name = "assoc" -> Exactly(3, args,
          LET r == Assoc(args[1], args[2], args[3]) IN IF r.ok THEN POut(<<r.v>>) ELSE PErr(r.c))
     [] name = "dissoc" -> Exactly(2, args,
